@@ -9,6 +9,7 @@ reproducible; tail -f contract.  Five monitors (DESIGN.md section 3, C04):
 import hashlib
 import json
 import os
+import random
 import select
 import signal
 import subprocess
@@ -603,6 +604,114 @@ def race_case(case):
 
 
 # ==========================================================================================
+# (f) function twins: the same builtin used with different constant arguments in two chained puts
+#     (added after seeded change C16r2-b: a package-level "most recent format -> formatter" cache in the strftime helpers).
+#     Each verb of a chain runs in its own goroutine, so any process-global state inside a builtin (a cache of the last
+#     compiled format / regex / time zone) is shared by the two puts.  Two observations per function: the race detector
+#     on the chained run over ~150 batches, and a differential of the chained run against one-batch runs
+#     (where the puts cannot interleave).
+
+FUNC_ARGS = {   # class -> (field argument, [constant argument sets A, B] for the 2nd/3rd positions)
+    "time": ("$t", [['"%Y-%m-%d"', '"Asia/Tokyo"'], ['"%H:%M:%S"', '"America/Sao_Paulo"']]),
+    "string": ("$s", [['"e"', '"X"'], ['"[a-n]"', '"<&>"']]),
+    "conversion": ("$s", [['"%08.3lf"', '";"'], ['"%d"', '"e"']]),
+    "hashing": ("$s", [['1', '2'], ['3', '4']]),
+    "math": ("$x", [['3', '7'], ['2', '5']]),
+    "arithmetic": ("$i", [['3', '7'], ['2', '5']]),
+    "boolean": ("$i", [['3', '7'], ['2', '5']]),
+    "typing": ("$s", [['"a"', '"b"'], ['"c"', '"d"']]),
+    "collections": ("splitax($s, \"e\")", [['"e"', '"X"'], ['";"', '"Y"']]),
+    "stats": ("splitax($s, \"e\")", [['25', '{}'], ['75', '{"interpolate_linearly": true}']]),
+}
+FUNC_SKIP = {"system", "exec", "os_type", "hostname", "version", "urand", "urandint", "urand32", "urandrange", "urandelement",
+             "systime", "systimeint", "sysntime", "uptime", "strfntime_local", "unformat", "unformatx"}
+
+
+def func_twin_input(n):
+    rng = random.Random("c04-f-input")
+    lines = []
+    for k in range(n):
+        lines.append(f"id=r{k+1},t={1500000000 + k * 86400 * 3 + rng.randint(0, 86399)},i={rng.randint(-50, 500)},"
+                     f"x={rng.uniform(-5, 5):.4f},s={rng.choice(['pane', 'eks;wye', 'zee e', 'hat;cat;bat', 'Delta', 'tree'])}{k % 7}")
+    return "\n".join(lines) + "\n"
+
+
+def func_case(case):
+    name, arity, cls = case["name"], case["arity"], case["cls"]
+    field, consts = FUNC_ARGS[cls]
+    res = case_result(_h("f", name, arity), nontrivial=True)
+    calls = []
+    for cset in consts:
+        args = ([field] + cset)[:arity]
+        calls.append(f"{name}({', '.join(args)})")
+    inp = func_twin_input(case["n"])
+    chain = ["put", "-q", f"$y = {calls[0]}; emit $*", "then", "put", f"$z = {calls[1]}", "then", "put", f"$w = {calls[0]}"]
+    out = ["--ojson", "--jvquoteall"]
+    detail = {"argv": ["--records-per-batch", "2"] + out + chain, "stdin": inp[:3000] + "...(regenerate: func_twin_input)", "function": name}
+    res["sample"] = {"monitor": "f", "function": name, "arity": arity, "calls": calls}
+    ref = R.mlr(["--records-per-batch", "100000"] + out + chain, stdin=inp, binary="mlr-verif", cpu_s=60, watchdog=120)
+    bump(res, "func_twin_runs")
+    if _hang_violation(res, ref, chain, "function twin (one batch)", detail):
+        return res
+    if ref.crashed():
+        add_violation(res, {"kind": "crash", "function": name}, f"crash in chained puts using {name}", dict(detail, stderr=ref.err[-3000:]))
+        return res
+    for binary, rpb in (("mlr-race", "2"), ("mlr-verif", "3"), ("mlr-verif", "1")):
+        r = R.mlr(["--records-per-batch", rpb] + out + chain, stdin=inp, binary=binary, cpu_s=120, watchdog=240)
+        bump(res, "func_twin_runs")
+        if _hang_violation(res, r, chain, "function twin", detail):
+            return res
+        if r.crashed():
+            add_violation(res, {"kind": "crash", "function": name}, f"crash in chained puts using {name} (batch size {rpb})", dict(detail, stderr=r.err[-3000:]))
+            return res
+        if (r.rc, r.stdout) != (ref.rc, ref.stdout):
+            a, b = r.out.splitlines(), ref.out.splitlines()
+            first = next((i for i, (u, v) in enumerate(zip(a, b)) if u != v), min(len(a), len(b)))
+            add_violation(res, {"kind": "stdout-differs", "where": "function-twins", "function": name},
+                          f"two chained puts using {name} with different constant arguments: output with batch size {rpb} ({binary}) differs "
+                          f"from the one-batch run at line {first+1}: {a[first][:120] if first < len(a) else None!r} vs {b[first][:120] if first < len(b) else None!r}",
+                          dict(detail, rpb=rpb, binary=binary))
+            return res
+        if binary == "mlr-race":
+            nrep = 0
+            for rep in (r.race_reports or []):
+                for blk in rep.split("WARNING: DATA RACE")[1:]:
+                    if "github.com/johnkerl/miller" not in blk:
+                        continue
+                    nrep += 1
+                    import re
+                    top = re.findall(r"^\s+(github\.com/johnkerl/miller/v6/\S+?)\(", blk, re.M)[:1]
+                    pair = "|".join(t.replace("github.com/johnkerl/miller/v6/pkg/", "") for t in top)
+                    add_violation(res, {"kind": "data-race", "pair": pair, "where": "function-twins"},
+                                  f"data race reported between two chained puts using {name} ({pair})", dict(detail, report=blk[:5000]))
+            bump(res, "race_reports", nrep)
+            bump(res, "race_executions")
+    if ref.rc == 0:
+        bump(res, "func_twins_evaluated_without_error")
+    return res
+
+
+def func_cases(chk):
+    r = R.mlr(["help", "usage-functions-by-class"], binary="mlr-verif")
+    import re
+    cases = []
+    for line in r.out.splitlines():
+        m = re.match(r"^([A-Za-z_][A-Za-z0-9_]*)\s+\(class=(\S+) #args=([^)]+)\)", line)
+        if not m:
+            continue
+        name, cls, args = m.groups()
+        if name in FUNC_SKIP or cls not in FUNC_ARGS:
+            continue
+        ars = [1, 2, 3] if args == "variadic" else [int(a) for a in args.split(",") if a.strip().isdigit()]
+        ars = [a for a in ars if 1 <= a <= 3]
+        if not ars:
+            continue
+        for a in (ars if not chk.quick() else ars[-1:]):
+            cases.append({"name": name, "arity": a, "cls": cls, "n": 300 if chk.quick() else 1500})
+    return cases
+
+
+# ==========================================================================================
 # (e) streaming monitor
 
 STREAM_VERBS = [
@@ -798,7 +907,8 @@ def run(chk):
                 "configuration variants (batch size, GOMAXPROCS, taskset, --hash-records, perturbation seeds); b: early-exit chains "
                 "(head/tee/seqgen/nothing/put -q/failing put) x N around k and batch boundaries x delays at hooked sites; "
                 "c: chains with random verbs/functions under --seed x 5 repetitions; d: race-detector stress list x perturbation seeds; "
-                "e: one-record-at-a-time streaming sessions. Non-trivial = input spans >= 2 batches and chain has >= 2 verbs or an early-exit verb; "
+                "e: one-record-at-a-time streaming sessions; f: every builtin function used with two different constant argument sets in chained puts: "
+                "race detector at batch size 2 + differential against the one-batch run. Non-trivial = input spans >= 2 batches and chain has >= 2 verbs or an early-exit verb; "
                 "distinct = by generator seed of the case")
     if not only or "a" in only:
         n = 110 if q else 1400
@@ -825,6 +935,10 @@ def run(chk):
         chk.pmap(race_case, cases, label="d race")
         if not q:
             regression_corpus_race(chk)
+    if not only or "f" in only:
+        fc = func_cases(chk)
+        chk.extra["f_function_twins"] = len(fc)
+        chk.pmap(func_case, fc, label="f function twins")
     if not only or "e" in only:
         n = 40 if q else 500
         chk.pmap(stream_case, [{"seed": f"{chk.seed}/e/{i}"} for i in range(n)], label="e streaming")
